@@ -4,7 +4,7 @@ ENGINES = [
     dict(name="driver", path="vf/driver.py", serves_properties=[], kind_free_text="builds targets against /repo's current tree, runs shards on 16 cores, merges reports, known-findings logic, evidence writer"),
     dict(name="corpus+slots", path="vf/gen.py harness/engine.hpp harness/corpus_main.hpp model/peg_model.hpp", serves_properties=["C01", "C02", "C04", "C05", "C06", "C08", "C09"], kind_free_text="generate-compile-run grammar corpus and slot shapes, observer control with match() wrapper, reference PEG model, rapidcheck scripts"),
     dict(name="zoo", path="targets/c02_zoo.cpp", serves_properties=["C02", "C06"], kind_free_text="rule zoo: every hand-written match() rule in rewinding contexts on exhaustive short inputs, invariants from the observer control"),
-    dict(name="enumerators+rapidcheck", path="targets/", serves_properties=["C10", "C14", "C15", "C17", "C20"], kind_free_text="total enumeration of finite spaces plus rapidcheck generators, explicit independent oracles"),
+    dict(name="enumerators+rapidcheck", path="targets/", serves_properties=["C10", "C14", "C15", "C16", "C17", "C19", "C20"], kind_free_text="total enumeration of finite spaces plus rapidcheck generators, explicit independent oracles"),
 ]
 NOTES = "All checks: ./check <id> --tier quick|thorough [--replay FILE]; seeds from VERIF_SEED; budgets are case counts."
 NOT_YET = {}
@@ -76,6 +76,18 @@ CLAIMS = {
         text="Exploration: for URI, URI-reference, absolute-URI, IPv4address and IPv6address (each followed by eof) the PEGTL verdict (parse_error = reject) is compared with derivability from the RFC's ABNF, decided by a full-backtracking matcher over the grammar typed as data and self-tested on the RFC's examples. Found that uri::host commits to IPv4address on a prefix (fixed, a9f038e) and a one-past-the-end read in dec_octet (fixed, 7059460).",
         design_ref="DESIGN.md section 2 C20",
         note="Trusted: oracles/abnf_ref.hpp, oracles/uri_abnf_ref.hpp (RFC 3986 Appendix A transcription)."),
+    "C16": dict(
+        engine="enumerators+rapidcheck",
+        technique="exhaustive short strings over the bracket alphabet + rapidcheck long-bracket strings, against an independent Lua long-bracket scanner",
+        text="Exploration: every string over {Open, Marker, Close, LF, CR, x, a} that starts with the opening character up to length 8 (thorough 10) for 10 instances (three character triples, five end-of-line policies, two content rules), random longer strings with levels 0..4 and decoys; result, consumed length, the span handed to the content action and 'nothing consumed on failure' are compared with an independent scanner, bare and inside sor<raw_string,any>.",
+        design_ref="DESIGN.md section 2 C16",
+        note="Trusted: the scanner lua_ref() in targets/c16_raw_string.cpp."),
+    "C19": dict(
+        engine="enumerators+rapidcheck",
+        technique="exhaustive short inputs x every position obtained from real runs x policies x tracking x initial counters, against an independent line splitter",
+        text="Exploration: at(), begin_of_line(), end_of_line(), line_at() for every position of every input up to length 7/8 over {a,b,LF,CR} and random longer texts, under five policies, both tracking modes and four initial counter settings; pointers must stay inside the data and delimit the line found by an independent splitter. Found the initial-counter defect (fixed, 14b9c25); the cr_crlf begin-of-line defect is an open finding.",
+        design_ref="DESIGN.md section 2 C19",
+        note="Trusted: split() in targets/c19_lines.cpp. Inputs where the policy's eol character occurs outside an eol sequence are not judged (ambiguous notion of line)."),
     "C17": dict(
         engine="enumerators+rapidcheck",
         technique="exhaustive enumeration + rapidcheck against an independent UTF-8/UTF-16 reference encoder",
